@@ -165,6 +165,7 @@ def variants(spec):
         ds['lon_bnds'] = (('bnds', ds['lon_bnds'].dims[0]), values.reshape(values.shape[::-1]), ds['lon_bnds'].attrs)
         yield 'same-bytes-other-shape:lon_bnds', 'differ', ds
     yield 'other-convention-class', 'differ-class', fresh()
+    yield 'convention-class-in-main', 'differ-class-main', fresh()
 
 
 def compute_key(ds, other_class=False):
@@ -172,7 +173,8 @@ def compute_key(ds, other_class=False):
     if other_class:
         base = type(ds.ems)
         ds = ds.copy()
-        renamed = type('RenamedConvention', (base,), {'__module__': 'somewhere.else'})
+        module = '__main__' if other_class == 'main' else 'somewhere.else'
+        renamed = type('RenamedConvention', (base,), {'__module__': module})
         renamed(ds).bind()
     import warnings
     with warnings.catch_warnings():
@@ -184,7 +186,7 @@ def key_table(spec) -> dict:
     table = {}
     for label, kind, ds in variants(spec):
         try:
-            table[label] = [kind, lib(compute_key, ds, kind == 'differ-class')]
+            table[label] = [kind, lib(compute_key, ds, 'main' if kind == 'differ-class-main' else kind == 'differ-class')]
         except LibraryRaised as err:
             table[label] = [kind, f'raised {err}']
     return table
